@@ -132,23 +132,106 @@ template <class PT> void run_scene(vf::Ctx& c, const char* tname, const Scene& s
   }
 }
 
+
+// ---- S: every sequence of find / setPreconditioner+find calls on ONE estimator, each answer vs a fresh estimator ------------
+// op = size {full, half} x form {index-based, aligned} x preconditioning {none, scale 1, 0.05, 40 through setPreconditioner}
+template <class PT> void run_sequences(vf::Ctx& c, const char* tname, const Scene& sc, int depth) {
+  using S = typename PT::Scalar; constexpr int DIM = PointTraits<PT>::DIM; constexpr int P = DIM == 2 ? 3 : 6;
+  using H = Eigen::Matrix<S, DIM + 1, DIM + 1>;
+  LD eps = std::numeric_limits<S>::epsilon();
+  size_t n = sc.pts.size();
+  V3 ax = DIM == 2 ? V3(0, 0, 1) : V3(1, -1, 1).normalized(); LD theta = 0.09L; V3 tr(0.05L, -0.02L, DIM == 3 ? 0.03L : 0);
+  M3 K; K << 0, -ax[2], ax[1], ax[2], 0, -ax[0], -ax[1], ax[0], 0; M3 R = M3::Identity() + sinl(theta) * K + (1 - cosl(theta)) * K * K;
+  PointSet<PT> src[2], tgt[2]; NormalSet<PT> nrm[2]; std::vector<Correspondence> cor[2];
+  for (size_t i = 0; i < n; ++i) {
+    V3 q = sc.pts[i]; V3 p = R.transpose() * (q - tr); auto h = regref::pattern((unsigned)(i + 13)); p += 0.01L * V3(h[0], h[1], DIM == 3 ? h[2] : 0);
+    src[0].push_back(mkp<PT>(p)); tgt[0].push_back(mkp<PT>(q)); nrm[0].push_back(mkp<PT>(sc.nrm[i], true));
+    if (i % 2 == 0) { src[1].push_back(mkp<PT>(p)); tgt[1].push_back(mkp<PT>(q)); nrm[1].push_back(mkp<PT>(sc.nrm[i], true)); }
+  }
+  for (size_t i = n; i-- > 0;) { cor[0].emplace_back(i, i); if (i % 2 == 0) cor[1].emplace_back(i, i); }   // index-based on the FULL sets; half = every other point
+  const S scales[4] = {(S)1, (S)1, (S)0.05, (S)40};   // index 0: no setPreconditioner call at all
+  const int NOPS = 16;
+  auto opname = [&](int op) { int size = op & 1, form = (op >> 1) & 1, pre = op >> 2; char b[96]; snprintf(b, 96, "%s%s %s points", pre == 0 ? "find " : pre == 1 ? "setPreconditioner(1)+find " : pre == 2 ? "setPreconditioner(0.05)+find " : "setPreconditioner(40)+find ", form ? "aligned" : "index-based", size ? "half" : "all"); return std::string(b); };
+  auto run_op = [&](FindRigidTransformationByLeastSquares<PT>& est, int op) -> H {
+    int size = op & 1, form = (op >> 1) & 1, pre = op >> 2;
+    if (pre == 0) return form ? est.find(src[size], tgt[size], nrm[size]) : est.find(src[0], tgt[0], nrm[0], cor[size]);
+    S sc = scales[pre];
+    if (form) { PreconditionedPointSet<PT> ps(src[size], sc), pt(tgt[size], sc); est.setPreconditioner(ps, pt); return est.find(ps, pt, nrm[size]); }
+    PreconditionedPointSet<PT> ps(src[0], sc), pt(tgt[0], sc); est.setPreconditioner(ps, pt); return est.find(ps, pt, nrm[0], cor[size]);
+  };
+  // per-op tolerance from the forward-error bound of the (scaled) problem; fresh answers
+  LD tolOp[NOPS]; LV xFresh[NOPS]; bool usable[NOPS];
+  for (int op = 0; op < NOPS; ++op) {
+    int size = op & 1, pre = op >> 2; LD scale = (LD)scales[pre];
+    const auto& cc = cor[size];
+    LM J(cc.size(), P); LV Y(cc.size());
+    for (size_t r = 0; r < cc.size(); ++r) {
+      V3 sP = V3::Zero(), tP = V3::Zero(), nn = V3::Zero();
+      for (int d = 0; d < DIM; ++d) { sP[d] = (LD)src[0][cc[r].sourcePointIndex][d] * scale; tP[d] = (LD)tgt[0][cc[r].targetPointIndex][d] * scale; nn[d] = nrm[0][cc[r].targetPointIndex][d]; }
+      V3 cr = sP.cross(nn);
+      if (DIM == 2) { J(r, 0) = nn[0]; J(r, 1) = nn[1]; J(r, 2) = cr[2]; } else { for (int d = 0; d < 3; ++d) { J(r, d) = nn[d]; J(r, 3 + d) = cr[d]; } }
+      Y(r) = (tP - sP).dot(nn);
+    }
+    Eigen::JacobiSVD<LM> svd(J); LD smax = svd.singularValues()(0), kap = smax / svd.singularValues()(P - 1);
+    usable[op] = 64 * P * eps * kap * kap <= 0.05L;
+    LV xs = J.householderQr().solve(Y);
+    LD tt = 8 * P * eps * kap * kap * (xs.norm() + Y.norm() / smax) + 16 * eps * (1 + tr.norm());
+    tolOp[op] = tt / std::min<LD>(1, scale) + tt;
+    FindRigidTransformationByLeastSquares<PT> fresh; bool shape; xFresh[op] = params_of<PT>(run_op(fresh, op), shape);
+    LV want = xs; for (int d = 0; d < DIM; ++d) want[d] /= scale;   // translation of the scaled problem maps back through 1/scale
+    c.eval();
+    if (usable[op] && (!shape || !((xFresh[op] - want).norm() <= tolOp[op])))
+      c.violation("FindRigidTransformationByLeastSquares.find.notLeastSquaresSolution", vf::JO().str("type", tname).str("scene", sc.name).str("explorer", "S").str("op", opname(op)).done(), vf::JO().num("param_err", (xFresh[op] - want).norm()).num("tol", tolOp[op]).done());
+  }
+  uint64_t total = 1; for (int i = 0; i < depth; ++i) total *= NOPS;
+  std::vector<int> seq(depth);
+  for (uint64_t k = 0; k < total; ++k) {
+    uint64_t r = k; for (int i = 0; i < depth; ++i) { seq[i] = r % NOPS; r /= NOPS; }
+    FindRigidTransformationByLeastSquares<PT> est; int modelPre = 0;
+    for (int i = 0; i < depth; ++i) {
+      int op = seq[i], pre = op >> 2;
+      if (pre == 0 && modelPre >= 2) break;   // a plain find while a non-unit preconditioner is configured: outside the statement
+      if (pre) modelPre = pre;
+      if (!usable[op]) break;
+      c.transitions(); c.eval(); if (i) c.nontrivial();
+      bool shape; LV x = params_of<PT>(run_op(est, op), shape);
+      for (int j = 0; j < P; ++j) c.obs((double)x[j]);
+      LD err = x.allFinite() ? (x - xFresh[op]).norm() : HUGE_VALL;
+      c.note_max(std::string("sequence_err_over_tol_") + tname, (double)(err / (2 * tolOp[op])));
+      if (!shape || !(err <= 2 * tolOp[op])) {
+        std::vector<std::string> h; for (int j = 0; j <= i; ++j) h.push_back(opname(seq[j]));
+        c.violation("FindRigidTransformationByLeastSquares.find.dependsOnHistory", vf::JO().str("type", tname).str("scene", sc.name).str("explorer", "S").strs("history", h).done(),
+                    vf::JO().num("difference_from_fresh_estimator", err).num("tol", 2 * tolOp[op]).vec("got", std::vector<LD>(x.data(), x.data() + P)).vec("fresh", std::vector<LD>(xFresh[op].data(), xFresh[op].data() + P)).done());
+        break;
+      }
+    }
+    c.traces();
+    if (c.c.violations > 30) return;
+  }
+}
+
 const char* kTypes[] = {"Vector2d", "Vector2f", "Homogeneous2d", "Homogeneous2f", "Vector3d", "Vector3f", "Homogeneous3d", "Homogeneous3f"};
 std::vector<Scene> g2, g3;
 void init() { if (g2.empty()) { g2 = scenes(2); g3 = scenes(3); } }
 
 }  // namespace
 
-uint64_t vf_ncases(const std::string& tier) { init(); return 4 * g2.size() + 4 * g3.size(); }
+uint64_t vf_ncases(const std::string& tier) { init(); return 4 * g2.size() + 4 * g3.size() + 8; }
 
 void vf_run(uint64_t idx, const std::string& tier, vf::Ctx& c) {
   init();
+  uint64_t nl = 4 * g2.size() + 4 * g3.size();
+  if (idx >= nl) { int t = (int)(idx - nl), d = tier == "thorough" ? 4 : 3;
+    switch (t) { case 0: run_sequences<Eigen::Vector2d>(c, kTypes[0], g2[1], d); break; case 1: run_sequences<Eigen::Vector2f>(c, kTypes[1], g2[1], d); break; case 2: run_sequences<HomogeneousCoordinates2d>(c, kTypes[2], g2[1], d); break; case 3: run_sequences<HomogeneousCoordinates2f>(c, kTypes[3], g2[1], d); break;
+      case 4: run_sequences<Eigen::Vector3d>(c, kTypes[4], g3[1], d); break; case 5: run_sequences<Eigen::Vector3f>(c, kTypes[5], g3[1], d); break; case 6: run_sequences<HomogeneousCoordinates3d>(c, kTypes[6], g3[1], d); break; default: run_sequences<HomogeneousCoordinates3f>(c, kTypes[7], g3[1], d); }
+    return; }
   if (idx < 4 * g2.size()) { int t = idx / g2.size(); const auto& s = g2[idx % g2.size()];
     switch (t) { case 0: run_scene<Eigen::Vector2d>(c, kTypes[0], s, tier == "thorough"); break; case 1: run_scene<Eigen::Vector2f>(c, kTypes[1], s, tier == "thorough"); break; case 2: run_scene<HomogeneousCoordinates2d>(c, kTypes[2], s, tier == "thorough"); break; default: run_scene<HomogeneousCoordinates2f>(c, kTypes[3], s, tier == "thorough"); } }
   else { uint64_t r = idx - 4 * g2.size(); int t = r / g3.size(); const auto& s = g3[r % g3.size()];
     switch (t) { case 0: run_scene<Eigen::Vector3d>(c, kTypes[4], s, tier == "thorough"); break; case 1: run_scene<Eigen::Vector3f>(c, kTypes[5], s, tier == "thorough"); break; case 2: run_scene<HomogeneousCoordinates3d>(c, kTypes[6], s, tier == "thorough"); break; default: run_scene<HomogeneousCoordinates3f>(c, kTypes[7], s, tier == "thorough"); } }
 }
 
-std::string vf_case_params(uint64_t idx, const std::string& tier) { init(); bool is2 = idx < 4 * g2.size(); uint64_t r = is2 ? idx : idx - 4 * g2.size(); const auto& g = is2 ? g2 : g3; return vf::JO().u("case", idx).str("type", kTypes[(is2 ? 0 : 4) + r / g.size()]).str("scene", g[r % g.size()].name).done(); }
+std::string vf_case_params(uint64_t idx, const std::string& tier) { init(); if (idx >= 4 * g2.size() + 4 * g3.size()) return vf::JO().u("case", idx).str("explorer", "S").str("type", kTypes[idx - 4 * g2.size() - 4 * g3.size()]).done(); bool is2 = idx < 4 * g2.size(); uint64_t r = is2 ? idx : idx - 4 * g2.size(); const auto& g = is2 ? g2 : g3; return vf::JO().u("case", idx).str("type", kTypes[(is2 ? 0 : 4) + r / g.size()]).str("scene", g[r % g.size()].name).done(); }
 
 std::string vf_describe(const std::string& tier) {
   init(); vf::JO o; std::vector<std::string> a, b; for (auto& s : g2) a.push_back(s.name); for (auto& s : g3) b.push_back(s.name);
@@ -157,6 +240,7 @@ std::string vf_describe(const std::string& tier) {
   o.str("motions", "rotation angle {0,1e-4,1e-2,0.1} about z (3D: z, x, (1,-1,1)) x translation {0, (0.05,-0.02,0.03), 0.4 x extent}; exact and perturbed (0.01) sources");
   o.str("correspondences", "identity, subset in reversed order, target and normals stored permuted (source index != target index)");
   o.str("overloads", "index-based on a fresh estimator, index-based on one estimator reused for the whole scene, aligned, preconditioned by 1e-3 and 1e3 with setPreconditioner");
+  o.str("S", std::string("every sequence of ") + (tier == "thorough" ? "4" : "3") + " calls out of 16 (all / half of the points x index-based / aligned x {plain find, setPreconditioner with scale 1, 0.05, 40 then find}) on ONE estimator, 8 point types, 40-point square / 96-point box with a 0.09 rad motion and perturbed sources; every answer within twice the forward-error bound of the answer of a fresh estimator; a plain find while a non-unit preconditioner is configured ends the sequence (outside the statement)");
   o.str("oracle", "J and Y rebuilt from the definition in long double; parameters vs Householder-QR solution within 4 p eps kappa^2 (|x|+|Y|/smax); identity+skew+translation shape; normal-equation residual; all overloads agree; pure translation exact; rotation error <= 2 kappa theta^2 (extent+|t|+1) sqrt(p); kappa(J)^2 >= 1e6 or no digits in the scalar type => outside the quantifier (trivial)");
   return o.done();
 }
